@@ -231,7 +231,7 @@ Section RevertOld.
 
   Lemma revert_store_old : revert_old (store_old s d) d = Some s.
   Proof.
-    unfold revert_old.
+    unfold revert_old, revert_old_with.
     assert (En : s_next (store_old s d) = s_next s + 1) by reflexivity. rewrite En.
     destruct (s_next s + 1 =? 0) eqn:E; [lia|].
     replace (s_next s + 1 - 1) with (s_next s) by lia. fold n.
@@ -239,7 +239,7 @@ Section RevertOld.
       [| intros; rewrite ro_rev_store; auto].
     rewrite store_old_eq.
     cbn [s_next s_class s_nonce s_dh s_store s_decl s_lstore s_lnonce s_lclass].
-    unfold n. rewrite rm_decl_upd; [| apply (v_nodup_decl _ _ Vd) | apply (i_s5 _ I) | apply (i_decl _ I)].
+    unfold n. rewrite rm_classes_upd; [| apply (v_nodup_decl _ _ Vd) | apply (i_s5 _ I) | apply (i_decl _ I) | apply (vs_deliv _ _ V)].
     fold n.
     rewrite (map_opt_all _ (fun e => (fst e, getd (nonce_dep s d) [fst e]))).
     2:{ intros. rewrite ro_rev_nonce; auto. }
